@@ -57,6 +57,22 @@ claim("C16", "MIR sibling agreement via symbolic expression reconstruction",
       "Decides agreement of the sibling implementations: the two entry encoders (field sources, serializer, prefix encoding, ranges, guard), the three read-range builders and exhaustive "
       "two-arm backend dispatch. Equality of results over operation sequences is not decided.", design="4/C16")
 
+claim("C05", "MIR RMW rule on slices with lock-guard provenance + truth table of the hold flag",
+      "Schedules are not enumerated. The check decides, for every path, the absence of the atomicity-violation shapes that make duplicate delivery possible: a cursor commit computed "
+      "from state read under another acquisition of the column lock, and a consuming stateful batch read that releases its guard between planning and commit (hold flag truth table "
+      "evaluated over its defining sub-CFG for all 8 valuations). Ordering between producers and fairness are not decided.", design="4/C05")
+claim("C09", "MIR only-allowed-bypass between commit and persist + finite evaluation + ORD",
+      "Decides persist-before-return for StrictlyAtOnce as a path property: from each cursor commit the persisted-index write can be bypassed only by the should_persist verdict, "
+      "checkpoint=false or a poisoned lock; should_persist's strict arm is evaluated; the batch commit closure's persist flag/target obligations; write-fsync-rename order of the index. "
+      "Tail ids versus recovery's synthetic ids and the AtLeastOnce redelivery bound are not decided.", design="4/C09")
+claim("C10", "MIR ordering / must-pass-through of sync calls on acknowledgement paths",
+      "'Sync before acknowledging' decided on every path: SyncEach arm of the single append, flush loops of both batch paths, seal-after-flush, the call-graph link from "
+      "SharedMmap::flush to the kernel sync of each backend, the creation protocol of new WAL files and tmp-fsync-rename-dirfsync of the two small stores. Replay of arbitrary "
+      "subsets of unsynced writes is not decided.", design="4/C10")
+claim("C17", "MIR call-graph must-reach with only-allowed-bypass + state-machine obligations",
+      "Decides that a clean shutdown (Drop of Walrus) synchronously reaches the marker store's fsync+rename on all paths with a snapshot of all topic states, that appends mark dirty "
+      "before anything can fail, that the marker state machine stores/loads the same atomic, and the atomic-replace protocol of the marker file.", design="4/C17")
+
 ALL = ["C%02d" % i for i in range(1, 26)]
 PENDING = "check under construction in this round (planned in DESIGN.md section 4); not claimed until its rules exist and are calibrated"
 for p in ALL:
